@@ -30,7 +30,7 @@ func init() {
 	Register(&Monitor{
 		ID: "C14",
 		Rule: "library: a -race build of the harness runs rounds with a barrier start in which N in {2,4,8,16} goroutines execute PRNG-chosen (expression, start node) tasks from a shared pool against one cursor tree, one set of compiled Grammars and shared binding objects (the same ContextApply closure assigning the same maps CLI-style, the same NodeSet variables — fresh per round, reverse-ordered and with spare capacity); each goroutine keeps its results privately and after Wait every result is compared with the serial baseline computed before the round; race reports are read from GORACE log files (exit codes are not trusted), counted and de-duplicated by the xsel frames involved; a report with a frame in xsel code is a violation, one entirely in harness code makes the run inconclusive. " +
-			"CLI: the command built with -race -tags verif runs over generated file sets (unique id per file, empty results, outputs larger than a pipe buffer, malformed and unreadable files) with -c 1 and -c N (N in {2,4,16,64}), -a/-m/-n variants and XSEL_VERIF_YIELD seeds; oracle: the -c N stdout cut into per-file blocks by the unique ids is a permutation of the -c 1 blocks, each block contiguous and byte-identical, stderr lines equal as multisets, no race report. distinct_nontrivial = distinct (goroutine count, completion-order hash) interleavings observed plus distinct CLI configurations",
+			"CLI: the command built with -race -tags verif runs over generated file sets (unique id per file, empty results, outputs larger than a pipe buffer, malformed and unreadable files, files in a default or prefixed namespace with unqualified descendants next to files in no namespace) with -c 1 and -c N (N in {2,4,16,64}), -a/-m/-n variants and XSEL_VERIF_YIELD seeds; oracle: the -c N stdout cut into per-file blocks by the unique ids is a permutation of the -c 1 blocks, each block contiguous and byte-identical, stderr lines equal as multisets, no race report. distinct_nontrivial = distinct (goroutine count, completion-order hash) interleavings observed plus distinct CLI configurations",
 		Assumptions: []string{"only interleavings that the scheduler (plus injected yields) produced are covered", "the race detector reports only races on accesses that actually executed"},
 		NCases:      func(tier string) int { return 0 },
 		Post:        c14Run,
@@ -373,10 +373,30 @@ func c14CLI(r *evid.Run, tier, dir string) {
 				if g.P(8) {
 					nitems = 3000 // > 64 KiB of output
 				}
-				for k := 0; k < nitems; k++ {
-					fmt.Fprintf(&sb, "<item n=\"%d\">%sitem%d <b>x</b></item>", k, id, k)
+				// a third of the files are namespaced (default namespace with unqualified children that
+				// need xmlns="" when printed with -m, or prefixed elements around unqualified ones)
+				switch kind := g.Intn(6); kind {
+				case 0:
+					sb.Reset()
+					sb.WriteString(`<r xmlns="urn:d">`)
+					for k := 0; k < nitems; k++ {
+						fmt.Fprintf(&sb, "<item n=\"%d\">%sitem%d <b xmlns=\"\">x<c/></b><e><f xmlns=\"urn:e\"/></e></item>", k, id, k)
+					}
+				case 1:
+					sb.Reset()
+					sb.WriteString(`<p:r xmlns:p="urn:a">`)
+					for k := 0; k < nitems; k++ {
+						fmt.Fprintf(&sb, "<p:item n=\"%d\">%sitem%d <b>x<p:c/></b></p:item>", k, id, k)
+					}
+					sb.WriteString("</p:r>")
+				default:
+					for k := 0; k < nitems; k++ {
+						fmt.Fprintf(&sb, "<item n=\"%d\">%sitem%d <b>x</b></item>", k, id, k)
+					}
 				}
-				sb.WriteString("</r>")
+				if !strings.HasSuffix(sb.String(), "</p:r>") {
+					sb.WriteString("</r>")
+				}
 			}
 			os.WriteFile(name, []byte(sb.String()), 0o644)
 			args = append(args, name)
@@ -385,7 +405,7 @@ func c14CLI(r *evid.Run, tier, dir string) {
 			}
 		}
 		mode := []string{"-a"}
-		switch g.Intn(4) {
+		switch si % 4 {
 		case 0:
 			mode = []string{"-m"}
 		case 1:
@@ -393,7 +413,7 @@ func c14CLI(r *evid.Run, tier, dir string) {
 		case 2:
 			mode = []string{}
 		}
-		expr := "//item"
+		expr := "//*[local-name()='item']"
 		base := append(append([]string{"-x", expr}, mode...), args...)
 		run := func(extra []string, yield string) (string, string, []raceReport, error) {
 			logPrefix := filepath.Join(dir, "race-cli")
